@@ -121,6 +121,7 @@ type rec struct {
 	wrote    [][]byte
 	invalid  int
 	invLens  []int
+	invPkts  [][]byte
 	totalH   atomic.Int64 // never reset: the exactly-once totals
 	totalI   atomic.Int64
 	sentinel atomic.Int64
@@ -186,6 +187,7 @@ func (r *rec) invalidFn(m []byte, err error) {
 	r.mu.Lock()
 	r.invalid++
 	r.invLens = append(r.invLens, len(m))
+	r.invPkts = append(r.invPkts, append([]byte(nil), m...))
 	r.mu.Unlock()
 }
 
@@ -196,13 +198,17 @@ type obs struct {
 	Wrote   [][]byte
 	Reqs    []*dns.Msg
 	Lost    bool // udp only: the datagram never reached the server loop
+	InvPkts [][]byte
+	// "" or how the service ended although nobody asked for it: the serve call came back by itself (with its error) /
+	// Shutdown found the server not started
+	Ended string
 }
 
 func (r *rec) take() obs {
 	r.mu.Lock()
 	defer r.mu.Unlock()
-	o := obs{Handled: r.handled, Invalid: r.invalid, Wrote: r.wrote, Reqs: r.reqs}
-	r.handled, r.invalid, r.wrote, r.reqs, r.invLens = 0, 0, nil, nil, nil
+	o := obs{Handled: r.handled, Invalid: r.invalid, Wrote: r.wrote, Reqs: r.reqs, InvPkts: r.invPkts}
+	r.handled, r.invalid, r.wrote, r.reqs, r.invLens, r.invPkts = 0, 0, nil, nil, nil, nil
 	return o
 }
 
@@ -219,28 +225,169 @@ func probePC(r *rec, pkt []byte) obs {
 	<-started
 	pc.Inject(memnet.Addr("probe"), pkt)
 	pc.WaitIdle()
-	if err := srv.Shutdown(); err != nil {
-		hx.Die("pc shutdown: %v", err)
-	}
-	if err := <-done; err != nil {
-		hx.Die("pc serve: %v", err)
-	}
+	ended := endServe(srv, done)
 	o := r.take()
 	for _, p := range pc.Sent() {
 		o.Replies = append(o.Replies, p.Data)
 	}
+	o.Ended = ended
 	return o
+}
+
+// endServe shuts the server down and collects the serve call.  A server that is still serving gives (nil, nil); anything
+// else is an observation (the service ended although nobody had asked for it), never a failure of the harness: the
+// serve call had come back by itself (its error), or Shutdown found the server not started.
+func endServe(srv *dns.Server, done chan error) string {
+	serr := srv.Shutdown()
+	derr := <-done
+	if serr == nil && derr == nil {
+		return ""
+	}
+	return fmt.Sprintf("serve call returned %v, Shutdown returned %v", derr, serr)
+}
+
+// seqPC: one server life on the in-memory PacketConn that receives all the messages, one after the other (the next is
+// injected when the loop is back in ReadFrom -- or the conn is closed).  Returns everything observed, the number of
+// datagrams the loop took, and how the service ended.
+func seqPC(r *rec, msgs []vec) (obs, int) {
+	pc := memnet.NewPacketConn()
+	started := make(chan struct{})
+	srv := &dns.Server{PacketConn: pc, Handler: r, MsgInvalidFunc: r.invalidFn, ReadTimeout: time.Hour,
+		NotifyStartedFunc: func() { close(started) }}
+	done := make(chan error, 1)
+	go func() { done <- srv.ActivateAndServe() }()
+	<-started
+	for k := range msgs {
+		pc.Inject(memnet.Addr("probe"), msgs[k].Pkt.Bytes())
+		pc.WaitIdle()
+	}
+	ended := endServe(srv, done)
+	o := r.take()
+	for _, p := range pc.Sent() {
+		o.Replies = append(o.Replies, p.Data)
+	}
+	o.Ended = ended
+	return o, pc.Received()
+}
+
+type countingTCPReader struct {
+	dns.Reader
+	n *atomic.Int64
+}
+
+func (c countingTCPReader) ReadTCP(conn net.Conn, timeout time.Duration) ([]byte, error) {
+	m, err := c.Reader.ReadTCP(conn, timeout)
+	if err == nil {
+		c.n.Add(1)
+	}
+	return m, err
+}
+
+// seqTCP: a server life and ONE connection that carries all the messages; the client half-closes behind the last, the
+// server serves what it got and closes, everything it wrote is read up to the end of the stream.
+func seqTCP(r *rec, msgs []vec) (obs, int) {
+	l := memnet.NewListener()
+	started := make(chan struct{})
+	var nread atomic.Int64
+	srv := &dns.Server{Listener: l, Handler: r, MsgInvalidFunc: r.invalidFn, ReadTimeout: time.Hour,
+		IdleTimeout: func() time.Duration { return time.Hour }, MaxTCPQueries: -1,
+		DecorateReader:    func(rd dns.Reader) dns.Reader { return countingTCPReader{rd, &nread} },
+		NotifyStartedFunc: func() { close(started) }}
+	done := make(chan error, 1)
+	go func() { done <- srv.ActivateAndServe() }()
+	<-started
+	c := l.Dial()
+	for k := range msgs {
+		writeFrame(c, msgs[k].Pkt.Bytes())
+	}
+	c.CloseWrite()
+	data, _ := io.ReadAll(c)
+	c.Close()
+	ended := endServe(srv, done)
+	o := r.take()
+	o.Replies = splitFrames(data)
+	o.Ended = ended
+	return o, int(nread.Load())
+}
+
+// splitObs hands what one server life showed to the messages it received: requests, handler output and replies by the
+// message ID (the k-th message of a sequence carries its own), invalid-message reports by the octets reported (equal
+// messages share them evenly, a surplus or a deficit stays with one of them).  What belongs to no message goes to the first.
+func splitObs(msgs []vec, o obs) []obs {
+	per := make([]obs, len(msgs))
+	idOf := func(b []byte) int {
+		if len(b) < 2 {
+			return -1
+		}
+		return int(b[0])<<8 | int(b[1])
+	}
+	pos := map[int]int{}
+	for k := range msgs {
+		if p := msgs[k].Pkt.Bytes(); len(p) >= 2 {
+			pos[idOf(p)] = k
+		}
+	}
+	at := func(id int) int { return pos[id] }
+	for _, q := range o.Reqs {
+		k := at(int(q.Id))
+		per[k].Handled++
+		per[k].Reqs = append(per[k].Reqs, q)
+	}
+	for _, w := range o.Wrote {
+		k := at(idOf(w))
+		per[k].Wrote = append(per[k].Wrote, w)
+	}
+	for _, b := range o.Replies {
+		k := at(idOf(b))
+		per[k].Replies = append(per[k].Replies, b)
+	}
+	for _, b := range o.InvPkts {
+		best := -1
+		for k := range msgs {
+			if string(msgs[k].Pkt.Bytes()) == string(b) && (best < 0 || per[k].Invalid < per[best].Invalid) {
+				best = k
+			}
+		}
+		if best < 0 {
+			best = 0
+		}
+		per[best].Invalid++
+	}
+	return per
+}
+
+// judgeSeq: every message the server took is judged like a message of its own (the vector carries the outcome
+// OutcomeAfter gives it behind the earlier ones); the message behind which the service ended is compared with the
+// specification's `ends'.
+func judgeSeq(v *vec, tr string, o obs, received int, sum *hx.Summary) {
+	per := splitObs(v.Msgs, o)
+	for k := range v.Msgs {
+		if k >= received {
+			break // never received: the service had ended (reported below) or the connection was gone
+		}
+		m := v.Msgs[k]
+		m.Seq = fmt.Sprintf("message %d of %d on one %s", k+1, len(v.Msgs), map[string]string{"pc": "socket", "tcp": "connection"}[tr])
+		m.Context = v.Msgs
+		if k == received-1 {
+			per[k].Ended = o.Ended
+		}
+		judgePkt(&m, tr, per[k], sum)
+	}
+	if received == 0 && o.Ended != "" {
+		sum.Mis("server-"+tr+"/service-ended:before-any-message", "the service ended before any message was taken: "+o.Ended, v)
+	}
 }
 
 // tcp: one server and one connection for many probes; each probe is followed by a sentinel.
 type tcpRig struct {
-	r    *rec
-	l    *memnet.Listener
-	srv  *dns.Server
-	c    *memnet.Conn
-	done chan error
-	n    int
-	sid  uint16
+	r     *rec
+	l     *memnet.Listener
+	srv   *dns.Server
+	c     *memnet.Conn
+	done  chan error
+	n     int
+	sid   uint16
+	ended int // connections the server ended before the sentinel was answered
 }
 
 func newTCPRig(r *rec) *tcpRig {
@@ -289,7 +436,14 @@ func (t *tcpRig) probe(pkt []byte) obs {
 	for {
 		f, err := readFrame(t.c)
 		if err != nil {
-			hx.Die("tcp: connection ended before the sentinel was answered: %v", err)
+			// The server ended the connection before it answered the sentinel.  The stream was read to its end, so what
+			// the probe got is complete (a connection is served by one goroutine, handlers included); the sentinel was
+			// not "received" by anybody -- whether a server may hang up after a message is not the statement's business
+			// (counted, not judged).  The next probe dials again.
+			t.c.Close()
+			t.c = nil
+			t.ended++
+			break
 		}
 		if string(f) == want {
 			break
@@ -350,14 +504,16 @@ func segmentations(n int) map[string][]int {
 
 var segNames = []string{"prefix-alone", "prefix+1", "prefix+5", "header-11", "header-12", "header-13", "inside-prefix", "octets", "halves"}
 
-func (t *tcpRig) close() {
+// close ends the rig; "" or how the service had ended by itself (the serve call came back although nobody called
+// Shutdown): an observation.
+func (t *tcpRig) close(sum *hx.Summary) {
 	if t.c != nil {
 		t.c.Close()
 	}
-	if err := t.srv.Shutdown(); err != nil {
-		hx.Die("tcp shutdown: %v", err)
+	if how := endServe(t.srv, t.done); how != "" {
+		sum.Mis("server-tcp/service-ended:listener", "the service on the in-memory listener ended although nobody had called Shutdown: "+how, nil)
 	}
-	<-t.done
+	sum.Note("tcp_connections_ended_by_server", t.ended)
 }
 
 // udp: a real loopback socket.  A DecorateReader counts the datagrams the server loop has read.
@@ -399,15 +555,30 @@ func probeUDP(r *rec, pkt []byte) obs {
 	var replies [][]byte
 	buf := make([]byte, 65536)
 	answered := false
-	for try := 0; try < 3 && !answered; try++ {
+	ended, serveErr := false, error(nil)
+	for try := 0; try < 3 && !answered && !ended; try++ {
 		sid := uint16(40000 + try)
 		cc.Write(sentinelQuery(sid))
 		want := string(sentinelReply(sid))
-		cc.SetReadDeadline(time.Now().Add(3 * time.Second))
+		until := time.Now().Add(3 * time.Second)
 		for {
+			// the wait is cut into slices: a serve call that has come back by itself (nobody called Shutdown) is an
+			// observation, not a lost datagram
+			select {
+			case serveErr = <-done:
+				ended = true
+			default:
+			}
+			if ended || !time.Now().Before(until) {
+				break
+			}
+			cc.SetReadDeadline(time.Now().Add(100 * time.Millisecond))
 			n, err := cc.Read(buf)
 			if err != nil {
-				break
+				if ne, ok := err.(net.Error); !(ok && ne.Timeout()) {
+					time.Sleep(20 * time.Millisecond) // e.g. "connection refused": the socket is gone; the serve call is about to return
+				}
+				continue
 			}
 			if string(buf[:n]) == want {
 				answered = true
@@ -421,8 +592,15 @@ func probeUDP(r *rec, pkt []byte) obs {
 	}
 	sentinels := r.sentinel.Swap(0)
 	lost := !answered || nread.Load() != 1+sentinels
-	srv.Shutdown() // waits for every packet goroutine
-	<-done
+	endedHow := ""
+	if ended {
+		// the serve call has returned: every packet goroutine is done (serveUDP waits for them)
+		lost = false
+		endedHow = fmt.Sprintf("serve call returned %v before anybody called Shutdown (%d datagram(s) read)", serveErr, nread.Load())
+		srv.Shutdown()
+	} else {
+		endedHow = endServe(srv, done) // waits for every packet goroutine
+	}
 	// whatever the server wrote is in our receive queue by now (loopback delivery is synchronous)
 	for {
 		cc.SetReadDeadline(time.Now().Add(30 * time.Millisecond))
@@ -438,6 +616,7 @@ func probeUDP(r *rec, pkt []byte) obs {
 	o := r.take()
 	o.Replies = replies
 	o.Lost = lost
+	o.Ended = endedHow
 	return o
 }
 
@@ -511,7 +690,7 @@ func (s *stoppingReader) ReadPacketConn(conn net.PacketConn, timeout time.Durati
 
 // stopWhileHeld: the message has been read and is held back; Shutdown is called and, once it has released srv.lock,
 // the read returns.  Shutdown and the serve call must then both come back (nil).
-func stopWhileHeld(tr string, srv *dns.Server, rd *stoppingReader, done chan error) {
+func stopWhileHeld(tr string, srv *dns.Server, rd *stoppingReader, done chan error) string {
 	sig := &stopSignal{ch: make(chan struct{})}
 	unlocked.Store(srv, sig)
 	defer unlocked.Delete(srv)
@@ -519,12 +698,11 @@ func stopWhileHeld(tr string, srv *dns.Server, rd *stoppingReader, done chan err
 	go func() { shut <- srv.Shutdown() }()
 	<-sig.ch
 	close(rd.release)
-	if err := <-shut; err != nil {
-		hx.Die("%s shutdown (stopping): %v", tr, err)
+	serr, derr := <-shut, <-done
+	if serr == nil && derr == nil {
+		return ""
 	}
-	if err := <-done; err != nil {
-		hx.Die("%s serve (stopping): %v", tr, err)
-	}
+	return fmt.Sprintf("serve call returned %v, Shutdown returned %v", derr, serr)
 }
 
 func probePCStopping(r *rec, pkt []byte) obs {
@@ -537,12 +715,19 @@ func probePCStopping(r *rec, pkt []byte) obs {
 	go func() { done <- srv.ActivateAndServe() }()
 	<-started
 	pc.Inject(memnet.Addr("probe"), pkt)
-	<-rd.got
-	stopWhileHeld("pc", srv, rd, done)
+	how := ""
+	select {
+	case <-rd.got:
+		how = stopWhileHeld("pc", srv, rd, done)
+	case err := <-done: // the serve call came back instead of handing the datagram on: an observation
+		how = fmt.Sprintf("serve call returned %v before the read of the datagram had completed successfully", err)
+		srv.Shutdown()
+	}
 	o := r.take()
 	for _, p := range pc.Sent() {
 		o.Replies = append(o.Replies, p.Data)
 	}
+	o.Ended = how
 	return o
 }
 
@@ -576,11 +761,12 @@ func probeTCPStopping(r *rec, pkt []byte) obs {
 	c := l.Dial()
 	writeFrame(c, pkt)
 	<-rd.got
-	stopWhileHeld("tcp", srv, rd, done)
+	how := stopWhileHeld("tcp", srv, rd, done)
 	data, _ := io.ReadAll(c)
 	c.Close()
 	o := r.take()
 	o.Replies = splitFrames(data)
+	o.Ended = how
 	return o
 }
 
@@ -606,9 +792,10 @@ func probeUDPStopping(r *rec, pkt []byte) obs {
 		hx.Die("udp write: %v", err)
 	}
 	lost := false
+	how := ""
 	select {
 	case <-rd.got:
-		stopWhileHeld("udp", srv, rd, done)
+		how = stopWhileHeld("udp", srv, rd, done)
 	case <-time.After(3 * time.Second):
 		lost = true
 		close(rd.release) // should the datagram still arrive it is not held back
@@ -628,6 +815,7 @@ func probeUDPStopping(r *rec, pkt []byte) obs {
 	o := r.take()
 	o.Replies = replies
 	o.Lost = lost
+	o.Ended = how
 	return o
 }
 
@@ -690,6 +878,11 @@ type vec struct {
 	// filled by the harness for the replay file
 	Transport string `json:"transport,omitempty"`
 	Seg       string `json:"seg,omitempty"` // tcp: how the octets were segmented
+	// seq: the messages one server life receives; pkt: does the message end the service (spec: never)
+	Msgs    []vec  `json:"msgs,omitempty"`
+	Ends    bool   `json:"ends"`
+	Seq     string `json:"seq,omitempty"`     // filled by the harness: position in the sequence
+	Context []vec  `json:"context,omitempty"` // filled by the harness: the whole sequence
 }
 
 // compare a reply header with the spec's table (-1 = not constrained); returns the first field that differs
@@ -748,6 +941,12 @@ func judgePkt(v *vec, tr string, o obs, sum *hx.Summary) {
 		sum.Mis(pre+key, fmt.Sprintf("[%s%s, policy %s, body %d, %d octets] %s", tr, seg, pc, v.Body, len(pkt), what), &cs)
 	}
 
+	if v.Seq != "" {
+		seg += ", " + v.Seq
+	}
+	if (o.Ended != "") != v.Ends {
+		mis("service-ended:"+pc, "the message ended the service: "+o.Ended+"; every later message goes unhandled")
+	}
 	switch {
 	case o.Handled > 1:
 		mis("handler-invoked-more-than-once", fmt.Sprintf("handler invoked %d times for one message", o.Handled))
@@ -1040,9 +1239,12 @@ func replay(path string) {
 	if hx.Thorough() {
 		udpEvery = 23
 	}
-	npkt, nroute, nudp, nlost, nseg, nphase := 0, 0, 0, 0, 0, 0
+	npkt, nroute, nudp, nlost, nseg, nphase, nseqs := 0, 0, 0, 0, 0, 0, 0
 	var udpJobs []*vec
 	hx.ReadNDJSON(path, func(i int, v *vec) {
+		if v.Kind == "pkt" && len(v.Context) > 0 { // a replay file: one message of a sequence; the whole sequence is run again
+			v = &vec{Kind: "seq", Msgs: v.Context, Transport: v.Transport}
+		}
 		switch v.Kind {
 		case "pkt":
 			pkt := v.Pkt.Bytes()
@@ -1120,6 +1322,22 @@ func replay(path string) {
 					udpJobs = append(udpJobs, v)
 				}
 			}
+		case "seq":
+			nseqs++
+			for _, tr := range []string{"pc", "tcp"} {
+				if v.Transport != "" && v.Transport != tr {
+					continue
+				}
+				sum.Evaluations += len(v.Msgs)
+				var o obs
+				var got int
+				if tr == "pc" {
+					guard("server-pc/hang:serve", "server on the in-memory PacketConn: a sequence of datagrams is not served to the end / Shutdown does not return", v, func() { o, got = seqPC(r, v.Msgs) })
+				} else {
+					guard("server-tcp/hang:serve", "server on the in-memory listener: a connection carrying several messages is not served to the end", v, func() { o, got = seqTCP(r, v.Msgs) })
+				}
+				judgeSeq(v, tr, o, got, &sum)
+			}
 		case "route":
 			nroute++
 			seen["r:"+fmt.Sprint(v.Pats, v.QName, v.QType)] = true
@@ -1169,9 +1387,9 @@ func replay(path string) {
 		close(jobs)
 		wg.Wait()
 	}
-	tcp.close()
+	tcp.close(&sum)
 	sum.Nontrivial = len(seen)
-	sum.Note("admission_replay", map[string]int{"packets": npkt, "routes": nroute, "udp_probes": nudp, "udp_lost": nlost, "tcp_segmented": nseg, "stopping_phase": nphase})
+	sum.Note("admission_replay", map[string]int{"packets": npkt, "routes": nroute, "udp_probes": nudp, "udp_lost": nlost, "tcp_segmented": nseg, "stopping_phase": nphase, "sequences": nseqs})
 	sum.Print()
 }
 
@@ -1418,7 +1636,7 @@ func recordPkt(out string, n int) {
 			sum.Sample(ev)
 		}
 	}
-	tcp.close()
+	tcp.close(&sum)
 	w.Emit(totalsEvent{Ev: "totals", Received: received, Handled: int(r.totalH.Load()), Invalid: int(r.totalI.Load())})
 	w.Close()
 	sum.Nontrivial = len(seen)
@@ -1447,7 +1665,8 @@ type muxEvent struct {
 
 type tagWriter struct {
 	recWriter
-	hit *[]int
+	hit   *[]int
+	inner func() // what the handler does while it runs (nil: returns at once)
 }
 
 func recordMux(out string, rounds int) {
@@ -1464,6 +1683,9 @@ func recordMux(out string, rounds int) {
 			return func(w dns.ResponseWriter, r *dns.Msg) {
 				tw := w.(*tagWriter)
 				*tw.hit = append(*tw.hit, idx)
+				if tw.inner != nil {
+					tw.inner()
+				}
 			}
 		}
 		// prologue, sequential: a request while nothing has ever been registered, then the initial registrations --
@@ -1516,6 +1738,21 @@ func recordMux(out string, rounds int) {
 						m.SetQuestion(name, qt)
 						var hit []int
 						tw := &tagWriter{hit: &hit}
+						if lr.Intn(3) == 0 {
+							// a handler that changes the multiplexer that dispatched to it: an operation of its own, begun
+							// and ended inside the dispatch
+							p, add := lr.Intn(len(muxPats)), lr.Intn(2) == 0
+							tw.inner = func() {
+								s := seq.Add(1)
+								if add {
+									mux.Handle(muxPats[p], mk(p+1))
+								} else {
+									mux.HandleRemove(muxPats[p])
+								}
+								e := seq.Add(1)
+								evs[g] = append(evs[g], muxEvent{Ev: map[bool]string{true: "handle", false: "remove"}[add], G: g, Pat: p + 1, Start: s, End: e})
+							}
+						}
 						s := seq.Add(1)
 						mux.ServeDNS(tw, m)
 						e := seq.Add(1)
@@ -1545,7 +1782,48 @@ func recordMux(out string, rounds int) {
 			}(g)
 		}
 		close(start)
-		guard("mux/hang:concurrent", "8 goroutines doing Handle / HandleRemove / ServeDNS do not all come back", round, wg.Wait)
+		guard("mux/hang:concurrent", "8 goroutines doing Handle / HandleRemove / ServeDNS (every third handler itself calls Handle / HandleRemove on the multiplexer that dispatched to it) do not all come back", round, wg.Wait)
+		// epilogue, forced by hand-offs: while one handler is still running (it waits for the harness) a pattern is
+		// registered / removed and another request is dispatched; both must complete without the busy handler's help
+		{
+			serve := func(g int, name string, qt uint16, inner func()) muxEvent {
+				m := new(dns.Msg)
+				m.SetQuestion(name, qt)
+				var hit []int
+				tw := &tagWriter{hit: &hit, inner: inner}
+				s := seq.Add(1)
+				mux.ServeDNS(tw, m)
+				e := seq.Add(1)
+				res := 0
+				if len(hit) > 0 {
+					res = hit[0]
+				}
+				return muxEvent{Ev: "serve", G: g, QName: hx.FromString(name), QType: int(qt), Start: s, End: e, Res: res, Calls: len(hit) + len(tw.msgs)}
+			}
+			s := seq.Add(1)
+			guard("mux/hang:Handle", "Handle after the concurrent phase does not return", round, func() { mux.Handle(".", mk(1)) })
+			e := seq.Add(1)
+			pro = append(pro, muxEvent{Ev: "handle", G: -2, Pat: 1, Start: s, End: e})
+			inside, release := make(chan struct{}), make(chan struct{})
+			busy := make(chan muxEvent, 1)
+			name1, name2 := muxNames[rng.Intn(len(muxNames))], muxNames[rng.Intn(len(muxNames))]
+			go func() { busy <- serve(-2, name1, dns.TypeA, func() { close(inside); <-release }) }()
+			guard("mux/hang:ServeDNS", "ServeDNS does not reach the handler", name1, func() { <-inside })
+			p, add := rng.Intn(len(muxPats)-1)+1, rng.Intn(2) == 0
+			s = seq.Add(1)
+			if add {
+				guard("mux/hang:Handle-while-a-handler-runs", "Handle called while a handler dispatched by the same multiplexer is still running does not return", muxPats[p], func() { mux.Handle(muxPats[p], mk(p+1)) })
+			} else {
+				guard("mux/hang:HandleRemove-while-a-handler-runs", "HandleRemove called while a handler dispatched by the same multiplexer is still running does not return", muxPats[p], func() { mux.HandleRemove(muxPats[p]) })
+			}
+			e = seq.Add(1)
+			pro = append(pro, muxEvent{Ev: map[bool]string{true: "handle", false: "remove"}[add], G: -3, Pat: p + 1, Start: s, End: e})
+			guard("mux/hang:ServeDNS-while-a-handler-runs", "a request that arrives while another handler is still running (and after a Handle / HandleRemove call) is not dispatched", name2, func() {
+				pro = append(pro, serve(-4, name2, []uint16{dns.TypeA, dns.TypeDS}[rng.Intn(2)], nil))
+			})
+			close(release)
+			guard("mux/hang:ServeDNS", "ServeDNS does not return after its handler has", name1, func() { pro = append(pro, <-busy) })
+		}
 		n := len(pro)
 		for _, l := range evs {
 			n += len(l)
